@@ -116,6 +116,12 @@ def usermaps(draw):
         cursor += draw(st.integers(0, 30))
     if not specs:
         specs = [{"id": 1, "first": 0, "last": 3, "win": "hi32", "ram": False, "mirror": None}]
+    if draw(st.booleans()):
+        # identifiers are only names: any distinct numbers (one a prefix of another, not ascending), declared in any order
+        ids = draw(st.permutations([1, 10, 11, 100, 2, 16, 12, 0, 255, 21, 101]))
+        for sp, i in zip(specs, ids):
+            sp["id"] = i
+        specs = list(draw(st.permutations(specs)))
     return specs
 
 
